@@ -139,6 +139,36 @@ class _ReorderingContext:
             return True
 
 
+class _ReorderingSuspended:
+    """Context manager that defers reordering requests.
+
+    For computations that keep intermediate results
+    that are not referenced, so cannot be interrupted
+    by reordering. The requests are deferred to
+    the next operation that can serve them.
+    """
+
+    def __init__(
+            self,
+            bdd:
+                'BDD'
+            ) -> None:
+        self.bdd = bdd
+        self.last_len = None
+
+    def __enter__(
+            self):
+        self.last_len = self.bdd._last_len
+        self.bdd._last_len = None
+
+    def __exit__(
+            self,
+            ex_type,
+            ex_value,
+            tb):
+        self.bdd._last_len = self.last_len
+
+
 class _NeedsReordering(Exception):
     """Raise this to request reordering."""
 
@@ -2390,8 +2420,9 @@ class BDD(dd._abc.BDD[_Ref]):
         if not name.endswith('.p'):
             raise ValueError(
                 f'Unknown file type of "{filename}"')
-        umap, roots = self._load_pickle(
-            filename, levels=levels)
+        with _ReorderingSuspended(self):
+            umap, roots = self._load_pickle(
+                filename, levels=levels)
         # all nodes were dumped, without roots ?
         if roots is None:
             return list()
@@ -2648,7 +2679,8 @@ def rename(
         levels[var]: levels[dvars.get(var, var)]
         for var in bdd.vars}
     cache = dict()
-    return _copy_bdd(u, dvars, bdd, bdd, cache)
+    with _ReorderingSuspended(bdd):
+        return _copy_bdd(u, dvars, bdd, bdd, cache)
 
 
 def _assert_valid_rename(
@@ -2782,9 +2814,10 @@ def image(
     s.intersection_update(rename.values())
     if s:
         raise AssertionError(s)
-    return _image(
-        trans, source, rename_u, rename_v,
-        qvars, bdd, forall, cache)
+    with _ReorderingSuspended(bdd):
+        return _image(
+            trans, source, rename_u, rename_v,
+            qvars, bdd, forall, cache)
 
 
 def preimage(
@@ -2835,9 +2868,10 @@ def preimage(
     rename_v = rename
     # check
     _assert_valid_rename(target, bdd, rename)
-    return _image(
-        trans, target, rename_u, rename_v,
-        qvars, bdd, forall, cache)
+    with _ReorderingSuspended(bdd):
+        return _image(
+            trans, target, rename_u, rename_v,
+            qvars, bdd, forall, cache)
 
 
 def _image(
@@ -3138,10 +3172,11 @@ def copy_bdd(
             to_bdd.level_of_var(var)
         for var in from_bdd.vars
         if var in to_bdd.vars}
-    r = _copy_bdd(
-        u, level_map,
-        from_bdd, to_bdd,
-        cache=dict())
+    with _ReorderingSuspended(to_bdd):
+        r = _copy_bdd(
+            u, level_map,
+            from_bdd, to_bdd,
+            cache=dict())
     return r
 
 
